@@ -95,6 +95,7 @@ def install(eng):
                  "Target, Hashes)",
                  # C05: a callback that does not submit (status, dry run) changes nothing at all
                  "implies(dry_mode, sched_accepted == old(sched_accepted))",
+                 "implies(dry_mode, the_backend._tracked_jobs == old(the_backend._tracked_jobs))",
                  "implies(dry_mode, forall(lambda u: BNow(u) == old(BNow(u)), Target))",
                  "implies(dry_mode, forall(lambda u, h: Changed(h, u) == old(Changed(h, u)), Target, Hashes))"],
         raises={"Exception": {"cond": "True", "modifies": []}},   # a rejected submission changes nothing
@@ -113,6 +114,7 @@ def install(eng):
     ]
     LOGINV = [
         "implies(dry_mode, sched_accepted == acc0)",
+        "implies(dry_mode, the_backend._tracked_jobs == trk0)",
         "implies(dry_mode, forall(lambda u: BNow(u) == bstat0(u), Target))",
         "implies(dry_mode, forall(lambda u, h: Changed(h, u) == chg0(h, u), Target, Hashes))",
         "log_n >= 0",
@@ -187,10 +189,10 @@ def install(eng):
             "dom(log_pos) == NoTargets", "log_n == 0", "all(InT(e) for e in endpoints)"],
         # definitions: the oracle's inputs are the state at the start of the run; X is an ARBITRARY set that
         # contains the endpoints and is closed under dependencies (axiom group `cone`)
-        defines=["bstat0", "stale0", "SpecF", "X", "chg0", "acc0"],
+        defines=["bstat0", "stale0", "SpecF", "X", "chg0", "acc0", "trk0"],
         entry_assume=[
             "forall(lambda u: BNow(u) == bstat0(u) and Stale(u, fs, spec_hashes) == stale0(u), Target)",
-            "forall(lambda u, h: Changed(h, u) == chg0(h, u), Target, Hashes)", "sched_accepted == acc0",
+            "forall(lambda u, h: Changed(h, u) == chg0(h, u), Target, Hashes)", "sched_accepted == acc0", "the_backend._tracked_jobs == trk0",
             "all(X(e) for e in endpoints)"],
         modifies=["Graph.dependencies"] + GHOSTS,
         ensures=[
